@@ -8,7 +8,7 @@ from vmc.checks.common import replay_program, run_programs
 from vmc.engine import Action, gate, make_step, make_workflow
 from vmc.events import A, Ab, Ask, B, C, Done, Resp, Work
 from vmc.progs import ENGINE_ASSUMPTIONS, Oracle, Spec, to_programs
-from workflows.events import StartEvent, StopEvent, UnhandledEvent
+from workflows.events import InputRequiredEvent, StartEvent, StopEvent, UnhandledEvent
 from workflows.runtime.types.ticks import TickAddEvent
 
 PID = "C02"
@@ -124,10 +124,18 @@ def final(h: Any, e: Any, state: dict[str, Any]) -> None:
             if got != want:
                 h.violate("delivery_count", {"want": want, "got": got, "targeted": target is not None},
                           f"{type(ev).__name__}#{getattr(ev, 'uid', '')} (target={target}) entered step {name} {got}x, expected {want}x")
+    # (b2') an event RETURNED by a step is an emission like any other: it must have been routed (one add-event tick)
+    from workflows.events import Event as _Event
+
+    routed = {id(ev) for ev, _t, _h in getattr(h, "c02_emissions", [])}
+    for inv in h.invocations:
+        if inv.exited and inv.exc is None and isinstance(inv.result, _Event) and not isinstance(inv.result, StopEvent) \
+                and id(inv.result) not in routed:
+            h.violate("returned_event_never_routed", {"type_kind": "InputRequiredEvent" if isinstance(inv.result, InputRequiredEvent) else "plain"},
+                      f"step {inv.step} returned {type(inv.result).__name__}#{getattr(inv.result, 'uid', '')}, but it was never handed to the steps")
     # (b3) one UnhandledEvent per unroutable event, none for InputRequiredEvent
     unh = Counter(u.event_type for u in h.published if isinstance(u, UnhandledEvent))
     want_unh: Counter = Counter()
-    from workflows.events import InputRequiredEvent
 
     for ev, target, handled in getattr(h, "c02_emissions", []):
         if not handled and not isinstance(ev, InputRequiredEvent):
@@ -285,6 +293,38 @@ def wf_retry_siblings() -> type:
     ])
 
 
+def wf_request_consumed(waiter: bool) -> type:
+    """a step RETURNS an InputRequiredEvent subclass that another step accepts (or, ``waiter``, waits for): it is a request for
+    the outside world on the stream AND an ordinary event for the steps that take it"""
+    async def start(self, ctx, ev, inv):  # noqa: ANN001
+        if waiter:
+            ctx.send_event(Work(uid=1))
+        await gate("start")
+        return Ask(uid=7)
+
+    async def auto(self, ctx, ev, inv):  # noqa: ANN001
+        await gate(f"auto{ev.uid}")
+        return Done(uid=ev.uid)
+
+    async def waits(self, ctx, ev, inv):  # noqa: ANN001
+        r = await ctx.wait_for_event(Ask, timeout=None, waiter_id="wa")
+        await gate("waits")
+        return Done(uid=100 + r.uid)
+
+    async def fin(self, ctx, ev, inv):  # noqa: ANN001
+        r = ctx.collect_events(ev, [Done] * (2 if waiter else 1))
+        if r is None:
+            return None
+        return StopEvent(result=sorted(e.uid for e in r))
+
+    steps = [make_step("start", [StartEvent], [Ask, Work] if waiter else [Ask], start),
+             make_step("auto", [Ask], [Done], auto),
+             make_step("fin", [Done], [StopEvent, None], fin, num_workers=1)]
+    if waiter:
+        steps.append(make_step("waits", [Work], [Done], waits))
+    return make_workflow("RequestConsumed", steps)
+
+
 def pool_wait_scripts(state: dict[str, Any]) -> list[list[Action]]:
     return [[Action("ext Resp9 broadcast", lambda: state["hd"].ctx.send_event(Resp(uid=9)))]]
 
@@ -352,6 +392,9 @@ def specs(tier: str) -> list[Spec]:
         Spec("pool_wait(k=4,w=3)", {"waiter_steps": ["work"], "send_when_waiting": True}, lambda: wf_pool_wait(4, 3),
              max_dev=(3 if q else 5), tags=("waiter", "pool")),
         Spec("retry_siblings", {"waiter_steps": []}, wf_retry_siblings, max_dev=(3 if q else None), tags=("retry",)),
+        Spec("request_event_consumed_by_a_step", {"waiter_steps": []}, lambda: wf_request_consumed(False), tags=("hitl",)),
+        Spec("request_event_awaited_by_a_step", {"waiter_steps": ["waits"], "wait_types": ["Ask"]}, lambda: wf_request_consumed(True),
+             max_dev=(3 if q else None), tags=("hitl", "waiter")),
     ]
     return sp
 
@@ -364,7 +407,7 @@ def _oracle() -> Oracle:
     def on_q(h: Any) -> None:
         if not hasattr(h, "c02_waiter_steps"):
             h.c02_waiter_steps = set(h.spec.params.get("waiter_steps", ["sw"]))
-            h.c02_wait_types = {Resp}
+            h.c02_wait_types = {Ask} if h.spec.params.get("wait_types") == ["Ask"] else {Resp}
         if h.spec.params.get("send_when_waiting") and not getattr(h, "c02_resp_script", False) and h.runners:
             # the client answers once the run waits (an answer sent before the waiter exists is dropped by design)
             if any(ws.collected_waiters for ws in h.runners[-1].state.workers.values()):
@@ -381,7 +424,7 @@ RULE = ("multi-accept workflow graphs (overlapping exact types, a subclass event
         "ctx.send_event, returned events, external broadcast/targeted sends, a waiting step that also accepts the "
         "awaited type, field-for-field equal events queued behind a saturated step, a pool step one of whose inputs suspends in "
         "wait_for_event while its siblings free and re-use worker slots out of start order, a step that fails and is retried while a sibling "
-        "accepts the same type) x all schedules within the stated deviation bound; per processed add-event tick the runner "
+        "accepts the same type, an InputRequiredEvent subclass returned by one step and accepted / awaited by another) x all schedules within the stated deviation bound; per processed add-event tick the runner "
         "state delta is compared with a dict router, and body entries / UnhandledEvent reports are counted at the "
         "end (runs end only after a fan-in of every delivery); non-trivial = at least one schedule deviation")
 
